@@ -172,7 +172,7 @@ class World(object):
 
     def __init__(self, server_factory, addrs=None, gai_error=None, cuts=None,
                  horizon=0.0, faults=None, rx_limit=None, budget=200000,
-                 tls_records=None, tls_short=None, split_send=False, stop_at=None):
+                 tls_records=None, tls_short=None, split_send=False, stop_at=None, clock_base=None, snap=None):
         self.server_factory = server_factory
         self.addrs = addrs if addrs is not None else [('ok', ('10.0.0.1', 80))]
         self.gai_error = gai_error
@@ -187,6 +187,11 @@ class World(object):
         self.tls_short = tls_short        # None | int: max bytes per TLS read
         self.split_send = split_send
         self.stop_at = stop_at        # hard end of the observation window (virtual time)
+        # what time.time() returns is clock_base + now; with snap=<digits> the reading is rounded to that many
+        # decimals, so that a clock_base of 0 yields "round" readings (0.9, not 0.8999999999999999) - the values
+        # at which float arithmetic on multiples of a rate shows its teeth
+        self.clock_base = CLOCK_BASE if clock_base is None else clock_base
+        self.snap = snap
         self.now = 0.0
         self.log = []
         self.opcount = {}
@@ -206,7 +211,9 @@ class World(object):
 
     # clock object interface (lomond.session.time / lomond.events.time)
     def time(self):
-        return CLOCK_BASE + self.now
+        if self.snap is not None:
+            return self.clock_base + round(self.now, self.snap)
+        return self.clock_base + self.now
 
     def sleep(self, dt):  # pragma: no cover
         self.now += dt
